@@ -18,7 +18,7 @@
      string / char literals.
    Everything else of the expression grammar is modelled, including the context flag YOU that
    `??` needs and loses for its operands. *)
-From Coq Require Import List ZArith Bool.
+From Coq Require Import List ZArith Bool Arith.
 Import ListNotations.
 
 (* hidc.lexer.tokens.OpToken, member for member. *)
@@ -55,38 +55,46 @@ Inductive expr : Type :=
 | ELen (e : expr)                               (* LengthLookup(source, end)            *)
 | EIdx (e i : expr).                            (* ArrayLookup(source, index, end)      *)
 
-(* Decidable equalities (boolean, for table lookups that must compute). *)
-Definition optok_eqb (a b : optok) : bool :=
-  match a, b with
-  | ADD, ADD | SUB, SUB | MUL, MUL | DIV, DIV | MOD, MOD | EQ, EQ | NE, NE | LT, LT | GT, GT
-  | LE, LE | GE, GE | OR, OR | AND, AND | NOT, NOT | IS, IS | SPECULATION, SPECULATION => true
-  | _, _ => false
-  end.
-
+(* Decidable equalities (boolean, for table lookups that must compute): compare constructor
+   indices. *)
+Definition optok_idx (x : optok) : nat := match x with | ADD => 0 | SUB => 1 | MUL => 2 | DIV => 3 | MOD => 4 | EQ => 5 | NE => 6 | LT => 7 | GT => 8 | LE => 9 | GE => 10 | OR => 11 | AND => 12 | NOT => 13 | IS => 14 | SPECULATION => 15 end.
+Definition optok_of_idx (n : nat) : optok := match n with | 0 => ADD | 1 => SUB | 2 => MUL | 3 => DIV | 4 => MOD | 5 => EQ | 6 => NE | 7 => LT | 8 => GT | 9 => LE | 10 => GE | 11 => OR | 12 => AND | 13 => NOT | 14 => IS | _ => SPECULATION end.
+Lemma optok_of_idx_idx : forall x, optok_of_idx (optok_idx x) = x.
+Proof. destruct x; reflexivity. Qed.
+Definition optok_eqb (a b : optok) : bool := Nat.eqb (optok_idx a) (optok_idx b).
 Lemma optok_eqb_eq : forall a b, optok_eqb a b = true <-> a = b.
-Proof. destruct a, b; simpl; split; intro H; try reflexivity; discriminate H. Qed.
-
+Proof.
+  intros a b; unfold optok_eqb; split; intro H.
+  - apply Nat.eqb_eq in H.
+    rewrite <- (optok_of_idx_idx a), <- (optok_of_idx_idx b), H; reflexivity.
+  - subst; apply Nat.eqb_refl.
+Qed.
 Lemma optok_eqb_refl : forall a, optok_eqb a a = true.
-Proof. destruct a; reflexivity. Qed.
-
-Definition binop_eqb (a b : binop) : bool :=
-  match a, b with
-  | Mul, Mul | Div, Div | Mod, Mod | Add, Add | Sub, Sub | Lt, Lt | Le, Le | Gt, Gt | Ge, Ge
-  | Eq, Eq | Ne, Ne | And, And | Or, Or => true
-  | _, _ => false
-  end.
-
+Proof. intro a; apply optok_eqb_eq; reflexivity. Qed.
+Definition binop_idx (x : binop) : nat := match x with | Mul => 0 | Div => 1 | Mod => 2 | Add => 3 | Sub => 4 | Lt => 5 | Le => 6 | Gt => 7 | Ge => 8 | Eq => 9 | Ne => 10 | And => 11 | Or => 12 end.
+Definition binop_of_idx (n : nat) : binop := match n with | 0 => Mul | 1 => Div | 2 => Mod | 3 => Add | 4 => Sub | 5 => Lt | 6 => Le | 7 => Gt | 8 => Ge | 9 => Eq | 10 => Ne | 11 => And | _ => Or end.
+Lemma binop_of_idx_idx : forall x, binop_of_idx (binop_idx x) = x.
+Proof. destruct x; reflexivity. Qed.
+Definition binop_eqb (a b : binop) : bool := Nat.eqb (binop_idx a) (binop_idx b).
 Lemma binop_eqb_eq : forall a b, binop_eqb a b = true <-> a = b.
-Proof. destruct a, b; simpl; split; intro H; try reflexivity; discriminate H. Qed.
-
-Definition unop_eqb (a b : unop) : bool :=
-  match a, b with
-  | Pos, Pos | Neg, Neg | Not, Not => true
-  | _, _ => false
-  end.
-
+Proof.
+  intros a b; unfold binop_eqb; split; intro H.
+  - apply Nat.eqb_eq in H.
+    rewrite <- (binop_of_idx_idx a), <- (binop_of_idx_idx b), H; reflexivity.
+  - subst; apply Nat.eqb_refl.
+Qed.
+Definition unop_idx (x : unop) : nat := match x with | Pos => 0 | Neg => 1 | Not => 2 end.
+Definition unop_of_idx (n : nat) : unop := match n with | 0 => Pos | 1 => Neg | _ => Not end.
+Lemma unop_of_idx_idx : forall x, unop_of_idx (unop_idx x) = x.
+Proof. destruct x; reflexivity. Qed.
+Definition unop_eqb (a b : unop) : bool := Nat.eqb (unop_idx a) (unop_idx b).
 Lemma unop_eqb_eq : forall a b, unop_eqb a b = true <-> a = b.
-Proof. destruct a, b; simpl; split; intro H; try reflexivity; discriminate H. Qed.
+Proof.
+  intros a b; unfold unop_eqb; split; intro H.
+  - apply Nat.eqb_eq in H.
+    rewrite <- (unop_of_idx_idx a), <- (unop_of_idx_idx b), H; reflexivity.
+  - subst; apply Nat.eqb_refl.
+Qed.
 
 Definition all_binops : list binop :=
   [Mul; Div; Mod; Add; Sub; Lt; Le; Gt; Ge; Eq; Ne; And; Or].
